@@ -75,8 +75,7 @@ class RealDom:
         if not s.div0_fresh: raise Unsupported('division by zero in real domain')
         s.nfresh += 1; return z3.Real('div0_%d' % s.nfresh)
     def const(s, x, bits):
-        if math.isnan(x): raise Unsupported('NaN constant in real domain')
-        if math.isinf(x): return float(x)        # +-inf: only comparisons against it are meaningful (every real is finite)
+        if math.isnan(x) or math.isinf(x): return float(x)        # NaN / +-inf constants (operands of selects in NaN-recovery code): they may be moved around, any arithmetic on them is refused; comparisons against +-inf are meaningful (every real is finite)
         return Fraction(float(x))
     def from_bits(s, v, bits):
         f = struct.unpack('<f' if bits == 32 else '<d', int(v).to_bytes(bits // 8, 'little'))[0]
@@ -89,7 +88,7 @@ class RealDom:
     def is_conc(s, x): return isinstance(x, (Fraction, float))
     def z(s, x): return z3.RealVal(str(x)) if isinstance(x, Fraction) else x
     def bin(s, op, a, b, bits):
-        if isinstance(a, float) or isinstance(b, float): raise Unsupported('arithmetic on an infinite constant in the real domain')
+        if isinstance(a, float) or isinstance(b, float): raise Unsupported('arithmetic on a non-finite constant in the real domain')
         if isinstance(a, Fraction) and isinstance(b, Fraction):
             if op == 'fdiv' and b == 0: return s._div0()
             return s._rc({'fadd': lambda: a + b, 'fsub': lambda: a - b, 'fmul': lambda: a * b, 'fdiv': lambda: a / b}[op](), bits)
